@@ -650,6 +650,22 @@ impl<Writer: Write> Mp4Writer<Writer> {
         }
         self.finalized = true;
 
+        // mdhd/tkhd/mvhd are written with 32-bit durations: refuse to wrap around.
+        fn track_duration(samples: &[SampleInfo], last_delta: Option<u32>) -> u64 {
+            samples
+                .iter()
+                .map(|sample| u64::from(sample.duration.or(last_delta).unwrap_or(1)))
+                .sum()
+        }
+        if track_duration(&self.video_samples, self.video_last_delta) > u64::from(u32::MAX)
+            || track_duration(&self.audio_samples, self.audio_last_delta) > u64::from(u32::MAX)
+        {
+            return Err(io::Error::new(
+                io::ErrorKind::InvalidData,
+                "MP4 track duration exceeds u32::MAX media ticks",
+            ));
+        }
+
         let video_config = self
             .video_config
             .clone()
